@@ -19,11 +19,14 @@ class IDevice2(Device):
   '''
   _p_h = 0
   _p_l = -1
-  _cost_fn = None
 
   def __init__(self, id, length, bounds, cbounds=None, **kwargs):
     super().__init__(id, length, bounds, cbounds=cbounds, **kwargs)
-    self._cost_fn = HLQuadraticCost(self.p_l, self.p_h, self.lbounds, self.hbounds)
+
+  @property
+  def _cost_fn(self):
+    ''' Built from the current settings, so parameters and bounds assigned after construction take effect. '''
+    return HLQuadraticCost(self.p_l, self.p_h, self.lbounds, self.hbounds)
 
   def costv(self, s, p):
     return self._cost_fn(s)/len(self) + s*p
